@@ -252,6 +252,7 @@ def main(a):
         ck = "CONFIG" if thorough else "CONFIGQ"
         parts["config"] = batch(ck, 0, 0, counts.get(ck, 0))
         parts["arglen"] = batch("ARGLEN", 0, 0, counts.get("ARGLEN", 0))
+        parts["boundary"] = batch("BOUNDARY", 0, 0, counts.get("BOUNDARY", 0))
         t_enum = time.time() - t1
         t1 = time.time()
         if thorough:
@@ -317,7 +318,7 @@ def main(a):
                         twin_cands.append({"run": r, "kind": kind, "seed": seed})
         t_twin = time.time() - t1
 
-        kinds = {"corpus": "CORPUS", "prefix": pk, "token": tk, "random": "RUNS", "light": "LIGHT", "config": ck, "arglen": "ARGLEN"}
+        kinds = {"corpus": "CORPUS", "prefix": pk, "token": tk, "random": "RUNS", "light": "LIGHT", "config": ck, "arglen": "ARGLEN", "boundary": "BOUNDARY"}
         cands = []
         for name, part in parts.items():
             for c in part["candidates"]:
@@ -441,7 +442,8 @@ def main(a):
         # ---- thorough: valgrind sample for the "uninitialised memory" clause
         vg = {"runs": 0, "errors": 0}
         if plain and shutil.which("valgrind"):
-            nvg = 300 if thorough else 32
+            nedge = counts.get("EDGE", 0)
+            nvg = (300 if thorough else 32) + nedge  # every curated edge document, then the seeded sample
 
             def vg_worker(k):
                 r = L2Runner(l1, l2, manifest, "v%d" % k)
@@ -450,7 +452,8 @@ def main(a):
                     for i in range(k, nvg, nw):
                         if l2hangs[0] >= 3 or orch.saturated():
                             break
-                        plan = [l[3:] for l in orch.command(r.w, "DUMP %s %d %d" % ("LIGHT" if i % 4 else "RUNS", a.seed, 2000000 + i))[0] if l.startswith("OP ")]
+                        dump = ("DUMP EDGE 0 %d" % i) if i < nedge else ("DUMP %s %d %d" % ("LIGHT" if i % 4 else "RUNS", a.seed, 2000000 + i))
+                        plan = [l[3:] for l in orch.command(r.w, dump)[0] if l.startswith("OP ")]
                         res = r.run(plan, binary=plain, wrapper=[shutil.which("valgrind"), "-q", "--error-exitcode=75"], timeout=900)
                         out.append((i, plan, res))
                 finally:
@@ -502,6 +505,9 @@ def main(a):
                     "argument_lengths": {"kind": "ARGLEN", "runs": parts["arglen"]["executed"], "of": counts.get("ARGLEN", 0),
                                          "what": "every length 1..640 and ten larger ones (to 65536) of: an unopenable input file name (one component / nested), a long unknown option, a long second input option, a long bare word; x 3 input types x {SLHA-type, detailed} output",
                                          "complete": parts["arglen"]["executed"] == counts.get("ARGLEN", 0)},
+                    "boundary_documents": {"kind": "BOUNDARY", "runs": parts["boundary"]["executed"], "of": counts.get("BOUNDARY", 0),
+                                           "what": "one CR / one NUL inserted at every offset of input/example.*; the examples padded to 64 KiB with one special byte (CR, LF, NUL, #, space, letter) at every offset 2^k-2..2^k+1, k=8..16; %d curated edge documents (DOS/Mac line endings, torn between CR and LF, no final newline, torn inside the first block header, lengths exactly at 2^k-1, 2^k, 2^k+1); each via stdin and via path" % counts.get("EDGE", 0),
+                                           "complete": parts["boundary"]["executed"] == counts.get("BOUNDARY", 0)},
                     "config_combinations": {"kind": ck, "runs": parts["config"]["executed"], "of": counts.get(ck, 0),
                                             "what": "all 480 valid GM2CalcConfig combinations (5 output formats x 3 loop orders x 2^5 switches) appended to " + ("every shipped file" if thorough else "input/example.* and three problem points"),
                                             "complete": parts["config"]["executed"] == counts.get(ck, 0)},
